@@ -22,7 +22,8 @@ trait PathVal: Clone + Send + Sync {
 
 impl PathVal for VfsPath {
     fn j(&self, s: &str) -> Result<Self, bool> {
-        self.join(s).map_err(|e| matches!(e.kind(), VfsErrorKind::InvalidPath))
+        self.join(s)
+            .map_err(|e| matches!(e.kind(), VfsErrorKind::InvalidPath))
     }
     fn par(&self) -> Self {
         self.parent()
@@ -52,7 +53,8 @@ impl PathVal for VfsPath {
 
 impl PathVal for AsyncVfsPath {
     fn j(&self, s: &str) -> Result<Self, bool> {
-        self.join(s).map_err(|e| matches!(e.kind(), VfsErrorKind::InvalidPath))
+        self.join(s)
+            .map_err(|e| matches!(e.kind(), VfsErrorKind::InvalidPath))
     }
     fn par(&self) -> Self {
         self.parent()
@@ -88,7 +90,11 @@ pub fn resolve(base: &str, arg: &str) -> Result<String, ()> {
     if arg.len() > 1 && arg.ends_with('/') {
         return Err(());
     }
-    let mut comps: Vec<&str> = if arg.starts_with('/') { vec![] } else { base.split('/').filter(|c| !c.is_empty()).collect() };
+    let mut comps: Vec<&str> = if arg.starts_with('/') {
+        vec![]
+    } else {
+        base.split('/').filter(|c| !c.is_empty()).collect()
+    };
     for c in arg.split('/') {
         match c {
             "" | "." => {}
@@ -102,7 +108,11 @@ pub fn resolve(base: &str, arg: &str) -> Result<String, ()> {
 }
 
 fn canonical(s: &str) -> bool {
-    s.is_empty() || (s.starts_with('/') && s[1..].split('/').all(|c| !c.is_empty() && c != "." && c != ".."))
+    s.is_empty()
+        || (s.starts_with('/')
+            && s[1..]
+                .split('/')
+                .all(|c| !c.is_empty() && c != "." && c != ".."))
 }
 
 fn ref_parent(s: &str) -> String {
@@ -150,7 +160,14 @@ struct Found {
     what: String,
 }
 
-fn check_join<P: PathVal>(api: &str, basep: &P, base: &str, arg: &str, out: &mut Vec<Found>, classes: &mut HashSet<String>) {
+fn check_join<P: PathVal>(
+    api: &str,
+    basep: &P,
+    base: &str,
+    arg: &str,
+    out: &mut Vec<Found>,
+    classes: &mut HashSet<String>,
+) {
     let want = resolve(base, arg);
     let got = guard(|| basep.j(arg));
     let shape = arg_shape(arg);
@@ -165,33 +182,75 @@ fn check_join<P: PathVal>(api: &str, basep: &P, base: &str, arg: &str, out: &mut
             // the error names the caller supplied argument
             if let Ok(Some(p)) = guard(|| basep.err_path(arg)) {
                 if p != arg {
-                    out.push(f("error-path", format!("InvalidPath error carries path {:?}", p)));
+                    out.push(f(
+                        "error-path",
+                        format!("InvalidPath error carries path {:?}", p),
+                    ));
                 }
             }
         }
-        (Err(()), Ok(Err(false))) => out.push(f("wrong-error-kind", "rejected with a kind other than InvalidPath".into())),
-        (Err(()), Ok(Ok(r))) => out.push(f("accepted-trailing-slash", format!("returned {:?} for an argument with a trailing slash", r.s()))),
-        (Ok(_), Ok(Err(_))) => out.push(f("rejected-valid", "rejected although the argument has no trailing slash".into())),
+        (Err(()), Ok(Err(false))) => out.push(f(
+            "wrong-error-kind",
+            "rejected with a kind other than InvalidPath".into(),
+        )),
+        (Err(()), Ok(Ok(r))) => out.push(f(
+            "accepted-trailing-slash",
+            format!("returned {:?} for an argument with a trailing slash", r.s()),
+        )),
+        (Ok(_), Ok(Err(_))) => out.push(f(
+            "rejected-valid",
+            "rejected although the argument has no trailing slash".into(),
+        )),
         (Ok(w), Ok(Ok(r))) => {
             let s = r.s();
-            classes.insert(format!("{}:{}", shape, if s.is_empty() { "root" } else if s.len() < base.len() { "shorter" } else { "other" }));
+            classes.insert(format!(
+                "{}:{}",
+                shape,
+                if s.is_empty() {
+                    "root"
+                } else if s.len() < base.len() {
+                    "shorter"
+                } else {
+                    "other"
+                }
+            ));
             if s != *w {
-                out.push(f("wrong-result", format!("returned {:?}, lexical resolution gives {:?}", s, w)));
+                out.push(f(
+                    "wrong-result",
+                    format!("returned {:?}, lexical resolution gives {:?}", s, w),
+                ));
             } else {
                 if !canonical(&s) {
                     out.push(f("not-canonical", format!("returned {:?}", s)));
                 }
                 if r.isroot() != s.is_empty() {
-                    out.push(f("is_root", format!("is_root() = {} for {:?}", r.isroot(), s)));
+                    out.push(f(
+                        "is_root",
+                        format!("is_root() = {} for {:?}", r.isroot(), s),
+                    ));
                 }
                 if r.par().s() != ref_parent(&s) {
-                    out.push(f("parent", format!("parent() of {:?} = {:?}", s, r.par().s())));
+                    out.push(f(
+                        "parent",
+                        format!("parent() of {:?} = {:?}", s, r.par().s()),
+                    ));
                 }
                 if r.fname() != ref_filename(&s) {
-                    out.push(f("filename", format!("filename() of {:?} = {:?}", s, r.fname())));
+                    out.push(f(
+                        "filename",
+                        format!("filename() of {:?} = {:?}", s, r.fname()),
+                    ));
                 }
                 if r.ext() != ref_extension(&s) {
-                    out.push(f("extension", format!("extension() of {:?} = {:?}, expected {:?}", s, r.ext(), ref_extension(&s))));
+                    out.push(f(
+                        "extension",
+                        format!(
+                            "extension() of {:?} = {:?}, expected {:?}",
+                            s,
+                            r.ext(),
+                            ref_extension(&s)
+                        ),
+                    ));
                 }
                 if !r.rt().s().is_empty() || !r.rt().isroot() {
                     out.push(f("root", format!("root() of {:?} = {:?}", s, r.rt().s())));
@@ -199,7 +258,13 @@ fn check_join<P: PathVal>(api: &str, basep: &P, base: &str, arg: &str, out: &mut
                 // equality: same instance, same string
                 if let Ok(Ok(again)) = guard(|| basep.rt().j(&s)) {
                     if !again.same(r) {
-                        out.push(f("eq", format!("{:?} reached by two routes on the same instance compares unequal", s)));
+                        out.push(f(
+                            "eq",
+                            format!(
+                                "{:?} reached by two routes on the same instance compares unequal",
+                                s
+                            ),
+                        ));
                     }
                 }
                 if !s.is_empty() && r.same(&r.par()) {
@@ -233,7 +298,10 @@ fn arg_shape(arg: &str) -> String {
     if arg.contains('é') {
         v.push("multibyte");
     }
-    if arg.split('/').any(|c| c.len() > 1 && c.contains('.') && c != "..") {
+    if arg
+        .split('/')
+        .any(|c| c.len() > 1 && c.contains('.') && c != "..")
+    {
         v.push("dotted-name");
     }
     if v.is_empty() {
@@ -242,7 +310,13 @@ fn arg_shape(arg: &str) -> String {
     v.join("+")
 }
 
-fn sweep<P: PathVal>(api: &str, root: &P, other: &P, l: usize, l_assoc: usize) -> (u64, Vec<Found>, HashSet<String>) {
+fn sweep<P: PathVal>(
+    api: &str,
+    root: &P,
+    other: &P,
+    l: usize,
+    l_assoc: usize,
+) -> (u64, Vec<Found>, HashSet<String>) {
     let sigma = ['/', '.', 'a', 'b', 'é'];
     let bases = ["", "/a", "/a/b", "/a.b", "/é/a", "/a/b/a"];
     let args = strings(&sigma, l);
@@ -316,6 +390,70 @@ fn sweep<P: PathVal>(api: &str, root: &P, other: &P, l: usize, l_assoc: usize) -
         out.extend(b);
         classes.extend(c);
     }
+    // equality matrix: the same few paths produced in every way the API offers (new, join, parent,
+    // root, clone, `..`, absolute joins) on two instances: equal iff same instance and same string
+    let routes = |r: &P| -> Vec<(String, P)> {
+        let j = |x: &P, a: &str| x.j(a).ok().expect("HARNESS: route");
+        let ab = j(r, "a/b");
+        let a = j(r, "a");
+        vec![
+            ("new".to_string(), r.clone()),
+            ("root.root()".to_string(), r.rt()),
+            ("root.parent()".to_string(), r.par()),
+            ("a.parent()".to_string(), a.par()),
+            ("a.root()".to_string(), a.rt()),
+            ("a/b.root()".to_string(), ab.rt()),
+            ("a/b.parent().parent()".to_string(), ab.par().par()),
+            ("a.join(..)".to_string(), j(&a, "..")),
+            ("a/b.join(/)".to_string(), j(&ab, "/")),
+            ("join(a)".to_string(), a.clone()),
+            ("a/b.parent()".to_string(), ab.par()),
+            ("a/b.join(..)".to_string(), j(&ab, "..")),
+            ("a/b.join(/a)".to_string(), j(&ab, "/a")),
+            ("root().join(a)".to_string(), j(&ab.rt(), "a")),
+            ("join(a/b)".to_string(), ab.clone()),
+            ("a.join(b)".to_string(), j(&a, "b")),
+            ("a/b.root().join(a/b)".to_string(), j(&ab.rt(), "a/b")),
+        ]
+    };
+    let mut vals: Vec<(usize, String, P)> = vec![];
+    for (i, r) in [root, other].into_iter().enumerate() {
+        for (how, v) in routes(r) {
+            vals.push((i, how, v));
+        }
+    }
+    for (i, how_x, x) in &vals {
+        for (k, how_y, y) in &vals {
+            n += 1;
+            let want = i == k && x.s() == y.s();
+            if x.same(y) != want {
+                out.push(Found {
+                    sig: format!(
+                        "{}|equality-matrix|{}",
+                        api,
+                        if want {
+                            "unequal-but-same-instance-and-string"
+                        } else if i != k {
+                            "equal-across-instances"
+                        } else {
+                            "equal-with-different-strings"
+                        }
+                    ),
+                    what: format!(
+                        "{}: {:?} via {} on instance {} == {:?} via {} on instance {} is {}",
+                        api,
+                        x.s(),
+                        how_x,
+                        i,
+                        y.s(),
+                        how_y,
+                        k,
+                        !want
+                    ),
+                });
+            }
+        }
+    }
     (n, out, classes)
 }
 
@@ -362,10 +500,16 @@ fn chains<P: PathVal>(api: &str, root: &P, depth: usize) -> (u64, u64, Vec<Found
                     }
                 }
             }
-            for (name, r, want) in [("parent", p.par(), ref_parent(&base)), ("root", p.rt(), String::new())] {
+            for (name, r, want) in [
+                ("parent", p.par(), ref_parent(&base)),
+                ("root", p.rt(), String::new()),
+            ] {
                 transitions += 1;
                 if r.s() != want {
-                    out.push(Found { sig: format!("{}|chain-{}", api, name), what: format!("{}: {}() of {:?} = {:?}", api, name, base, r.s()) });
+                    out.push(Found {
+                        sig: format!("{}|chain-{}", api, name),
+                        what: format!("{}: {}() of {:?} = {:?}", api, name, base, r.s()),
+                    });
                 }
                 if seen.insert(r.s()) {
                     next.push(r);
@@ -391,28 +535,65 @@ pub fn run_c06(ctx: &Ctx) -> i32 {
     let r1 = VfsPath::new(MemoryFS::new());
     let r2 = VfsPath::new(MemoryFS::new());
     let (n1, f1, c1) = sweep("VfsPath", &r1, &r2, l, la);
-    println!("  [VfsPath strings <= {} over {{/ . a b é}} x 6 bases] evaluations={} findings={}", l, n1, f1.len());
+    println!(
+        "  [VfsPath strings <= {} over {{/ . a b é}} x 6 bases] evaluations={} findings={}",
+        l,
+        n1,
+        f1.len()
+    );
     let a1 = AsyncVfsPath::new(AsyncMemoryFS::new());
     let a2 = AsyncVfsPath::new(AsyncMemoryFS::new());
     let (n2, f2, c2) = sweep("AsyncVfsPath", &a1, &a2, l, la);
-    println!("  [AsyncVfsPath same] evaluations={} findings={}", n2, f2.len());
+    println!(
+        "  [AsyncVfsPath same] evaluations={} findings={}",
+        n2,
+        f2.len()
+    );
     let (s3, t3, f3) = chains("VfsPath", &r1, depth);
     let (s4, t4, f4) = chains("AsyncVfsPath", &a1, depth);
-    println!("  [chains of join/parent/root to depth {}] states={} transitions={} findings={}", depth, s3 + s4, t3 + t4, f3.len() + f4.len());
+    println!(
+        "  [chains of join/parent/root to depth {}] states={} transitions={} findings={}",
+        depth,
+        s3 + s4,
+        t3 + t4,
+        f3.len() + f4.len()
+    );
     // other backends share the same path type; equality needs two instances of each
     let mut extra = 0u64;
     for (label, p, q) in [
-        ("Phys", VfsPath::new(vfs::PhysicalFS::new("/nonexistent-a")), VfsPath::new(vfs::PhysicalFS::new("/nonexistent-a"))),
-        ("Alt", VfsPath::new(vfs::AltrootFS::new(r1.join("x").unwrap())), VfsPath::new(vfs::AltrootFS::new(r1.join("x").unwrap()))),
-        ("Ov", VfsPath::new(vfs::OverlayFS::new(&[r1.clone()])), VfsPath::new(vfs::OverlayFS::new(&[r1.clone()]))),
+        (
+            "Phys",
+            VfsPath::new(vfs::PhysicalFS::new("/nonexistent-a")),
+            VfsPath::new(vfs::PhysicalFS::new("/nonexistent-a")),
+        ),
+        (
+            "Alt",
+            VfsPath::new(vfs::AltrootFS::new(r1.join("x").unwrap())),
+            VfsPath::new(vfs::AltrootFS::new(r1.join("x").unwrap())),
+        ),
+        (
+            "Ov",
+            VfsPath::new(vfs::OverlayFS::new(&[r1.clone()])),
+            VfsPath::new(vfs::OverlayFS::new(&[r1.clone()])),
+        ),
     ] {
         for a in strings(&['/', '.', 'a', 'é'], 4) {
             extra += 1;
             let mut dummy = HashSet::new();
-            check_join(&format!("VfsPath[{}]", label), &p, "", &a, &mut found, &mut dummy);
+            check_join(
+                &format!("VfsPath[{}]", label),
+                &p,
+                "",
+                &a,
+                &mut found,
+                &mut dummy,
+            );
             if let (Ok(x), Ok(y)) = (p.join(&a), q.join(&a)) {
                 if x == y || x != p.join(&a).unwrap() {
-                    found.push(Found { sig: format!("VfsPath[{}]|eq-across-instances", label), what: format!("equality of {:?} on two {} instances", a, label) });
+                    found.push(Found {
+                        sig: format!("VfsPath[{}]|eq-across-instances", label),
+                        what: format!("equality of {:?} on two {} instances", a, label),
+                    });
                 }
             }
         }
@@ -430,7 +611,12 @@ pub fn run_c06(ctx: &Ctx) -> i32 {
         let c = seen.entry(f.sig.clone()).or_insert(0);
         *c += 1;
         if *c <= 2 {
-            vio.push(Violation { property: "C06".into(), signature: f.sig, summary: f.what.clone(), replay: json!({"engine": "path", "case": f.what}) });
+            vio.push(Violation {
+                property: "C06".into(),
+                signature: f.sig,
+                summary: f.what.clone(),
+                replay: json!({"engine": "path", "case": f.what}),
+            });
         }
     }
     let cov = json!({
@@ -461,7 +647,12 @@ pub fn panic_sweep(l: usize) -> (u64, Vec<Violation>) {
         .into_iter()
         .chain(f2)
         .filter(|f| f.sig.contains("panic"))
-        .map(|f| Violation { property: "C13".into(), signature: f.sig, summary: f.what.clone(), replay: json!({"engine": "path", "case": f.what}) })
+        .map(|f| Violation {
+            property: "C13".into(),
+            signature: f.sig,
+            summary: f.what.clone(),
+            replay: json!({"engine": "path", "case": f.what}),
+        })
         .collect();
     (n1 + n2, v)
 }
